@@ -30,6 +30,7 @@ type DagOpts struct {
 	Exotic   bool // allow well-formed exotic cells
 	Shape    int  // 0 random, 1 chain, 2 wide tree, 3 diamond lattice
 	SmallBit bool // keep data short (for many-cell bags)
+	Indexed  bool // node i holds the 32-bit number i (no draws): all nodes are distinct cells whatever the tape
 }
 
 // Dag draws a DAG bottom-up and returns its nodes; the last node is the natural root. Every node is
@@ -38,6 +39,9 @@ func Dag(c *core.Ctx, o DagOpts) []*ref.RCell {
 	n := o.MaxNodes
 	nodes := make([]*ref.RCell, 0, n)
 	drawBits := func(i int) ref.Bits {
+		if o.Indexed {
+			return ref.Bits{}.AppendUint(uint64(i), 32)
+		}
 		l := 0
 		if o.SmallBit {
 			l = c.Range("len", 0, 20)
